@@ -3,12 +3,13 @@ import base64
 import hashlib
 import json
 
-from ..core import Result, out_bytes
+from ..core import Result, out_bytes, file_crosscheck
+import random
 from .. import gen, ser
 from ..val import veq, clone, kind
 
 ID = 'C14'
-NEED_BINS = False
+NEED_BINS = True
 SIZES = {'quick': 20000, 'thorough': 3000000}
 REQUIRED_EVENTS = ['encodings_agreed', 'invalid_rejected', 'inverse_checked', 'format_texts_checked']
 RULE = ('$-free scalars, flat and nested maps and lists (list-valued and empty-string entries for tolist/flags, lists of lists with empty '
@@ -333,6 +334,11 @@ def check_case(ctx, case):
         return res.violate('encode', 'result differs from the reference implementation (stack applied left to right)', case=case, expect=expect, got=got)
     res.ev('encodings_agreed')
     res.labels.add('outcome:encoded')
+    if case.get('i', 0) % 25 == 0:
+        rj = ctx.call([{'op': 'merge_doc', 'id': 'd', 'data': d}, {'op': 'output', 'format': 'json'}], res)
+        if rj is not None and rj['results'][1]['err'] is None:
+            if not file_crosscheck(ctx, res, [d], True, out_bytes(rj['results'][1]), {'case': case}, random.Random(case.get('i', 0))):
+                return res
     if metam:
         o2 = rs[3]
         if o2['err'] is not None or not veq(o2['values'], o['values']):
